@@ -123,4 +123,38 @@ def run(tier):
     allc = " ".join(cfg.expr_str(cfg.expr_operand(ffv, b["term"]["discr"], 8)) for b in ffv.blocks if not b["cleanup"] and b["term"]["k"] == "switch")
     rep.check("adjacent_value_allowed_at" in allc and any(ck == S + "fetch_value" for _, _, ck, _ in ffv.calls()), "adjacent-value-dispatch", "fetch_flow_value",
               "fetch_flow_value no longer consults adjacent_value_allowed_at before fetch_value", site=ffv.span)
+    # a member name and its ':' may sit on different lines inside an explicit { }: the same-line requirement of fetch_value (an error guarded
+    # by a comparison of two line numbers) applies to the implicit single-pair mapping of a flow sequence only, i.e. it is dominated by a
+    # test whose definition excludes `flow_mapping_started`
+    fvf = F.fn(S + "fetch_value")
+    errs = cfg.err_sink_blocks(fvf)
+    nline = 0
+    for bi, b in enumerate(fvf.blocks):
+        t = b["term"]
+        if b["cleanup"] or t["k"] != "switch" or t["dty"] != "bool":
+            continue
+        e = cfg.expr_operand(fvf, t["discr"], 8)
+        if not (e[0] == "bin" and all(x[0] == "place" and x[2][-1:] == [("field", "line")] for x in (e[2], e[3]))):
+            continue
+        if not any(sx in errs or any(q in errs for q in fvf.succs(sx)) for sx in fvf.succs(bi)):
+            continue
+        nline += 1
+        scoped = False
+        for d in fvf.dominators().get(bi, ()):
+            td = fvf.blocks[d]["term"]
+            if td["k"] != "switch" or td["dty"] != "bool" or td["vals"] != [0]:
+                continue
+            l = is_local(td["discr"])
+            l = cfg.resolve_copy_chain(fvf, l) if l is not None else None
+            if l is None:
+                continue
+            txt = " ".join(cfg.expr_str(cfg.expr_operand(fvf, dd[3]["rv"].get("a", {}), 8)) if dd[0] == "stmt" and dd[3]["rv"]["k"] in ("use", "un") else ""
+                           for dd in cfg.defs_of_local(fvf, l))
+            if "flow_mapping_started" in txt and cfg.dominated_by_edge(fvf, bi, d, td["otherwise"]):
+                scoped = True
+        rep.check(scoped, "multiline-key-only-implicit", "fetch_value#line-test%d" % nline,
+                  "fetch_value rejects a key whose ':' is on a later line without first establishing that the mapping is the implicit single pair of a flow "
+                  "sequence (a test that excludes flow_mapping_started): a JSON object below an array may have a line break between a member name and ':'",
+                  site=fvf.span)
+    rep.floor("same-line requirements in fetch_value", nline, 1)
     return rep
